@@ -398,3 +398,90 @@ func checkTriggerVetoAborts(c *Ctx, t *tranAnchors, rule string) {
 	}
 	c.Floor(rule, n, 3, "trigger calls in update transactions")
 }
+
+// checkSharedSlotStoresPropagate (C43.7): a value stored into a closure's shared slots while
+// the Shared is concurrent (its Lock() answered true) is made concurrent first — other threads
+// reach it through the closure (compare SuObject.set, SuInstance.put).
+func checkSharedSlotStoresPropagate(c *Ctx, rule string) {
+	p := c.P
+	valuesF := p.Field("core", "Shared", "values")
+	if !c.need(rule, "core.Shared.values", valuesF) {
+		return
+	}
+	n := 0
+	for _, fs := range p.FuncsIn("core") {
+		if fs.Body == nil {
+			continue
+		}
+		info := fs.Info()
+		// functions that lock a Shared: if X.Lock() { … }
+		locks := false
+		ast.Inspect(fs.Body, func(nd ast.Node) bool {
+			if call, ok := nd.(*ast.CallExpr); ok {
+				if sel, ok := call.Fun.(*ast.SelectorExpr); ok && sel.Sel.Name == "Lock" {
+					if t := info.TypeOf(sel.X); t != nil {
+						if nt := c17NamedOf(t); nt != nil && nt.Obj().Name() == "Shared" {
+							locks = true
+						}
+					}
+				}
+			}
+			return true
+		})
+		if !locks {
+			continue
+		}
+		setConc := func(_ *FuncSrc, nd ast.Node) []string {
+			call, ok := nd.(*ast.CallExpr)
+			if !ok {
+				return nil
+			}
+			sel, ok := call.Fun.(*ast.SelectorExpr)
+			if !ok || sel.Sel.Name != "SetConcurrent" {
+				return nil
+			}
+			return []string{"conc:" + exprStr(sel.X)}
+		}
+		store := Ev{"store", func(_ *FuncSrc, nd ast.Node) bool {
+			as, ok := nd.(*ast.AssignStmt)
+			if !ok || len(as.Lhs) != 1 || len(as.Rhs) != 1 {
+				return false
+			}
+			ix, ok := ast.Unparen(as.Lhs[0]).(*ast.IndexExpr)
+			return ok && FieldOf(info, ix.X) == valuesF
+		}}
+		fl := &Flow{P: p, Node: combine(Labeler(store), setConc), Edge: func(_ *FuncSrc, cond ast.Expr, truth bool) []string {
+			if call, ok := ast.Unparen(cond).(*ast.CallExpr); ok && truth {
+				if sel, ok := call.Fun.(*ast.SelectorExpr); ok && sel.Sel.Name == "Lock" {
+					return []string{"@concurrent"}
+				}
+			}
+			return nil
+		}}
+		// the propagation may be conditional on the lock: look at the whole function instead of the merge point
+		res := fl.Analyze(fs)
+		for _, s := range res.Of("store") {
+			as := s.Node.(*ast.AssignStmt)
+			v := exprStr(as.Rhs[0])
+			found := false
+			// the propagation is conditional on the Shared being concurrent, so it is looked for
+			// lexically: a SetConcurrent() on the stored value earlier in the function
+			ast.Inspect(fs.Body, func(nd ast.Node) bool {
+				if cc, ok := nd.(*ast.CallExpr); ok && cc.Pos() < as.Pos() {
+					if s2, ok := cc.Fun.(*ast.SelectorExpr); ok && s2.Sel.Name == "SetConcurrent" && exprStr(s2.X) == v {
+						found = true
+					}
+				}
+				return true
+			})
+			// or unconditionally before the store
+			if s.Before.Has("conc:" + v) {
+				found = true
+			}
+			n++
+			c.Obl(rule, fs.name+": a value stored into a concurrent closure's shared slot is made concurrent", p.Pos(as), found,
+				"the slot of a closure that other threads run is given a value ("+v+") that was not marked concurrent: two threads then use that object without locking")
+		}
+	}
+	c.Floor(rule, n, 3, "stores into shared slots in functions that lock the Shared")
+}
